@@ -1,5 +1,32 @@
 """C11 — constants of the input subsystem, regenerated from /repo on every run."""
 import gen as G
+import os, re
+
+def _pins():
+    """literals of the sources that have no macro: read them from the working tree so that the model follows them.
+    Never raises (other properties share the loader): a literal that is not found becomes a C expression that does
+    not compile, i.e. a translator failure of THIS group only."""
+    def body(path, name):
+        t = open(os.path.join(G.REPO, path)).read()
+        for m in re.finditer(re.escape(name) + r'\s*\(', t):
+            k = m.end(); e = min([x for x in (t.find(';', k), t.find('{', k)) if x >= 0] or [len(t)])
+            if e < len(t) and t[e] == '{':
+                j = t.find('\n}\n', e)
+                return t[e:j if j >= 0 else len(t)]
+        return ''
+    def one(lst, name): return lst[0] if len(lst) == 1 else 'C11_PIN_NOT_FOUND_' + name
+    try:
+        hi = body('src/user/supla_esp_gpio.c', 'supla_esp_gpio_relay_hi')
+        d = re.findall(r'os_delay_us\((\d+)\)', hi)
+        d1, d2 = (d[0], d[1]) if len(d) == 2 else ('C11_PIN_NOT_FOUND_relay_hi_delays', 'C11_PIN_NOT_FOUND_relay_hi_delays')
+        leg = body('src/user/supla_esp_input.c', 'supla_esp_input_legacy_state_change_handling')
+        r = ['(%s * %s)' % x for x in re.findall(r'last_state_change\s*>=\s*(\d+)\s*\*\s*(\d+)', leg)]
+        ini = open(os.path.join(G.REPO, 'src/user/supla_esp_gpio.c')).read()
+        m = re.findall(r'supla_motion_sensor_init_timer,\s*INPUT_SILENT_STARTUP_TIME_MS\s*\+\s*(\d+)\s*,\s*0\)', ini)
+        return [('RELAY_D1_US', d1), ('RELAY_D2_US', d2), ('CFG_COUNT_RESET_US_', one(r, 'toggle_reset_time')),
+                ('MOTION_INIT_EXTRA_MS', one(m, 'motion_timer'))]
+    except Exception as e:
+        return [('RELAY_D1_US', 'C11_PIN_ERROR'), ('RELAY_D2_US', 'C11_PIN_ERROR'), ('CFG_COUNT_RESET_US_', 'C11_PIN_ERROR'), ('MOTION_INIT_EXTRA_MS', 'C11_PIN_ERROR')]
 
 G.GROUPS['InputConsts'] = dict(
     pre='#include <stddef.h>\n#include <proto.h>\n#include <supla_esp.h>\n#include <supla_esp_input.h>\n#include <supla_esp_gpio.h>\n',
@@ -37,11 +64,11 @@ G.GROUPS['InputConsts'] = dict(
         ('CAP_PRESS_x3', 'SUPLA_ACTION_CAP_SHORT_PRESS_x3'),
         ('CAP_PRESS_x4', 'SUPLA_ACTION_CAP_SHORT_PRESS_x4'),
         ('CAP_PRESS_x5', 'SUPLA_ACTION_CAP_SHORT_PRESS_x5'),
-        ('MOTION_INIT_MS', 'INPUT_SILENT_STARTUP_TIME_MS + 100'),
+        ('MOTION_INIT_MS', 'INPUT_SILENT_STARTUP_TIME_MS + %s' % dict(_pins())['MOTION_INIT_EXTRA_MS']),
         ('RELAY_DOUBLE_TRY_US', 'RELAY_DOUBLE_TRY'),
         ('CALL_ACTIONTRIGGER', 'SUPLA_DS_CALL_ACTIONTRIGGER'),
         ('CALL_VALUE_CHANGED', 'SUPLA_DS_CALL_DEVICE_CHANNEL_VALUE_CHANGED'),
         ('SIZEOF_CLICK_COUNTER', 'sizeof(((supla_input_cfg_t*)0)->click_counter)'),
         ('SIZEOF_DEBOUNCE_STEP', 'sizeof(((supla_input_cfg_t*)0)->debounce_step)'),
-    ],
+    ] + _pins(),
 )
